@@ -93,7 +93,8 @@ PROPS = {
                 "BaseWorkplace.record_assigned_task_id", "BaseWorkplace.record_all_facility_state", "BaseComponent.initialize",
                 "BaseTask.initialize", "BaseWorker.initialize", "BaseFacility.initialize", "BaseTeam.initialize",
                 "BaseWorkplace.initialize", "BaseProduct.initialize", "BaseTask.reverse_log_information", "BaseComponent.reverse_log_information", "BaseWorker.reverse_log_information", "BaseFacility.reverse_log_information", "BaseWorkflow.reverse_log_information", "BaseProduct.reverse_log_information", "BaseTeam.reverse_log_information", "BaseWorkplace.reverse_log_information", "BaseOrganization.reverse_log_information", "BaseProject.reverse_log_information",
-                "BaseProject.simulate", "BaseProject.initialize", "BaseWorkflow.initialize", "BaseOrganization.initialize", "BaseOrganization.record"],
+                "BaseProject.simulate", "BaseProject.initialize", "BaseWorkflow.initialize", "BaseOrganization.initialize", "BaseOrganization.record",
+                "BaseTeam.add_labor_cost", "BaseWorkplace.add_labor_cost", "BaseOrganization.add_labor_cost"],
         "static": COMMON_STATIC,
         "level_text": "Every record_* method is proved to append exactly one entry equal to the live attribute (with the display rule), "
                       "every aggregating record method to do so once for every member and nothing else (frames), for all models.",
@@ -118,13 +119,43 @@ PROPS = {
         "explanation": "component state rule",
     },
 
+    "C13": {
+        "inv": ["BaseComponent.is_ready", "BaseWorkplace.can_put", "BaseWorkplace.get_available_space_size", "BaseWorkplace.get_total_workamount_skill",
+                "BaseComponent.set_placed_workplace", "BaseWorkplace.set_placed_component", "BaseWorkplace.remove_placed_component",
+                "BaseProject.__allocate@placement",
+                "BaseComponent.record_placed_workplace_id", "BaseWorkplace.record_placed_component_id"],
+        "static": COMMON_STATIC,
+        "level_text": "The placement block of the allocation loop (base_project.py `if task.target_component is not None: ...`, cut out of "
+                      "__allocate mechanically on every run and verified as one execution for an arbitrary task) is proved for all products, "
+                      "capacities, input links and priority rules: a component is moved only while none of its tasks is WORKING, only into a "
+                      "workplace of the task and of the organization, from one of the declared input workplaces or from nowhere, only if "
+                      "can_put held (space taken + its size < capacity + 1e-8), is listed where it is placed and delisted where it was, "
+                      "its whole subtree is relabelled, and no other component or workplace changes. The recursive set/remove functions "
+                      "are proved over arbitrary product trees (ghost descendant relation and rank), can_put / available space / "
+                      "is_ready against their definitions, and the two log writers against the live state.",
+        "level_note": "Not decided: `moves at most once per step` and `a task only works with facilities of the workplace where its "
+                      "component is placed` are properties of the whole allocation loop (several tasks of one component), which is not "
+                      "verified (bounded stand-in of __allocate did not terminate within budget); removal of finished top-level "
+                      "components (check_removing_placed_workplace) is under an assumed frame contract only; the capacity clause counts "
+                      "every listed component (children too), i.e. is at least as strict as the property's top-most counting. The assembly "
+                      "branch (unplaced parent whose children are placed on their own) is excluded by precondition. Known findings: nested "
+                      "components that move on their own break `subtree listed where the parent is placed` (D7b/D17).",
+        "design_ref": "DESIGN.md section 6 C13, section 12.7",
+        "assumptions": ["product structure is a forest (ghost `desc` relation with a strictly increasing rank; pairwise disjoint child subtrees)",
+                        "block extraction drops the rest of __allocate: the enclosing `for task` loop, the sorting of tasks and the worker/facility allocation that follows",
+                        "loop #2 of the block (removing separately placed children while iterating the list being edited) is excluded by precondition, not verified",
+                        "BaseProduct.check_removing_placed_workplace: assumed frame contract"],
+        "explanation": "placement block of __allocate and the placement functions",
+    },
+
     "C03": {
         "inv": ["BaseWorker.check_update_state_from_absence_time_list", "BaseFacility.check_update_state_from_absence_time_list",
                 "BaseTeam.check_update_state_from_absence_time_list", "BaseWorkplace.check_update_state_from_absence_time_list",
                 "BaseOrganization.check_update_state_from_absence_time_list",
                 "BaseWorkflow.__check_working", "BaseWorkflow.__check_finished", "BaseTask.can_add_resources",
                 "BaseWorker.record_assigned_task_id", "BaseFacility.record_assigned_task_id",
-                "BaseTask.record_allocated_workers_facilities_id"],
+                "BaseTask.record_allocated_workers_facilities_id",
+                "BaseWorker.initialize", "BaseFacility.initialize", "BaseTask.initialize"],
         "static": COMMON_STATIC,
         "level_text": "Function-level contracts, all inputs, arbitrary set order: release on finish (every resource a finishing task "
                       "held gets an empty assignment list and state FREE; nothing else is touched; exclusive two-way consistency is "
@@ -138,7 +169,8 @@ PROPS = {
     },
     "C04": {
         "inv": ["BaseTask.can_add_resources", "BaseProject.__is_allocated_worker", "BaseProject.__is_allocated_facility",
-                "BaseWorker.has_workamount_skill", "BaseFacility.has_workamount_skill", "BaseWorker.has_facility_skill"],
+                "BaseWorker.has_workamount_skill", "BaseFacility.has_workamount_skill", "BaseWorker.has_facility_skill",
+                "BaseOrganization.check_update_state_from_absence_time_list", "BaseProject.simulate"],
         "static": COMMON_STATIC,
         "level_text": "can_add_resources is proved equal to the eligibility predicate (state, solo rules both ways, fixed-ID lists, "
                       "unassigned facility, facility/worker/operator skills > tol) for all tasks/workers/facilities, and each clause of "
@@ -254,7 +286,7 @@ PROPS = {
         "inv": ["BaseWorkflow.__check_ready", "BaseWorkflow.__check_working", "BaseWorkflow.__check_finished",
                 "BaseProject.initialize", "BaseWorkflow.initialize", "BaseOrganization.initialize", "BaseProduct.initialize",
                 "BaseTask.initialize", "BaseWorker.initialize", "BaseFacility.initialize", "BaseComponent.initialize"],
-        "static": COMMON_STATIC + ["c09_identity_scan", "c09_mutable_defaults", "c09_reset_fields"],
+        "static": COMMON_STATIC + ["c09_identity_scan", "c09_set_order_unobservable", "c09_mutable_defaults", "c09_reset_fields"],
         "level_text": "(a) order independence: the three phases that iterate over internal task sets are verified with loops cut at "
                       "invariants over an ARBITRARY enumeration of the set; __check_ready and __check_working are proved to yield task "
                       "states that are a stated function of the pre-state, __check_finished to run to a fixpoint (no finishable task "
@@ -301,7 +333,9 @@ PROPS = {
     },
     "C17": {
         "inv": ["BaseWorkflow.reverse_dependencies", "BaseOrganization.reverse_dependencies", "BaseProject.reverse_log_information",
-                "BaseOrganization.reverse_log_information", "BaseWorkflow.reverse_log_information", "BaseProduct.reverse_log_information"],
+                "BaseOrganization.reverse_log_information", "BaseWorkflow.reverse_log_information", "BaseProduct.reverse_log_information",
+                # the dependency clause of the reversed logs rests on the same three gates as C01 (run on the reversed network)
+                "BaseWorkflow.__check_ready", "BaseWorkflow.__check_working", "BaseWorkflow.__check_finished"],
         "static": COMMON_STATIC + ["c17_structure_not_in_frame"],
         "level_text": "reverse_dependencies of workflow and organization are verified to swap the two link lists of every member as the SAME "
                       "list objects (value identity), so two calls restore the structure; simulate and everything it can call are shown "
